@@ -34,7 +34,7 @@ pub struct Obs {
     pub layout_after_use: Vec<(String, Result<Layout, String>)>,
     pub ident_error: Option<String>,
     pub max_threads: usize,
-    /// run counters after the script [seq, par, dispatch, thread_local, run_now]
+    /// run counters after the script [seq, par, dispatch, thread_local, run_now, dispatch on a second world, dispatch on the first again]
     pub runs: Option<Vec<u32>>,
     pub dispatch_panic: Option<String>,
     /// run counters that differ from `runs` when the default pool has that many threads
@@ -51,6 +51,9 @@ pub struct Obs {
     pub disposes_via_run_now: Option<Vec<u32>>,
     /// try_into_sendable: Some(Ok(shape)) / Some(Err(()))
     pub sendable: Option<Result<Vec<Vec<usize>>, ()>>,
+    /// after a rejected try_into_sendable: (a dispatch of the dispatcher handed back completed, run counters of that
+    /// dispatch, its identified layout, a second conversion succeeded)
+    pub after_rejected_conversion: Option<(bool, Vec<u32>, Option<Layout>, bool)>,
     pub shape: Vec<Vec<usize>>,
     pub ntl: usize,
     /// world side of setup: for every subset (bit 0 = A, bit 1 = C) of pre-inserted sentinels, the values of
@@ -168,6 +171,12 @@ pub fn observe(ops: &[Op], resmap: &[u8], need: Need) -> Obs {
             // system of another dispatcher): that is one more full dispatch
             ctx.dispatch_no.store(5, std::sync::atomic::Ordering::Relaxed);
             shred::RunNow::run_now(&mut d, &world);
+            // the same dispatcher on a second world, then on the first one again: two more dispatches
+            let world2 = if resmap.iter().any(|c| *c as usize >= NCONCRETE) { new_world_wide() } else { new_world() };
+            ctx.dispatch_no.store(6, std::sync::atomic::Ordering::Relaxed);
+            d.dispatch(&world2);
+            ctx.dispatch_no.store(7, std::sync::atomic::Ordering::Relaxed);
+            d.dispatch(&world);
         }));
         if let Err(p) = r {
             o.dispatch_panic = Some(payload_str(&*p));
@@ -187,6 +196,9 @@ pub fn observe(ops: &[Op], resmap: &[u8], need: Need) -> Obs {
                         d2.dispatch(&world);
                         d2.dispatch_thread_local(&world);
                         shred::RunNow::run_now(&mut d2, &world);
+                        let world2 = if resmap.iter().any(|c| *c as usize >= NCONCRETE) { new_world_wide() } else { new_world() };
+                        d2.dispatch(&world2);
+                        d2.dispatch(&world);
                     }));
                     if let Err(p) = r {
                         o.dispatch_panic = Some(format!("default pool of {} threads: {}", n, payload_str(&*p)));
@@ -219,7 +231,18 @@ pub fn observe(ops: &[Op], resmap: &[u8], need: Need) -> Obs {
         }
         o.sendable = Some(match d.try_into_sendable() {
             Ok(sd) => Ok(sd.verif_layout()),
-            Err(_) => Err(()),
+            Err(mut back) => {
+                // a rejected conversion hands the ORIGINAL dispatcher back: it goes on working, thread-local systems
+                // included, and a second conversion is rejected again
+                let before = ctx.runs.lock().unwrap().clone();
+                let r = catch_unwind(AssertUnwindSafe(|| back.dispatch(&world)));
+                let after = ctx.runs.lock().unwrap().clone();
+                let layout_back = identify(&mut back, &ctx, &world).ok();
+                let again = back.try_into_sendable().is_ok();
+                o.after_rejected_conversion = Some((r.is_ok(), after.iter().zip(before.iter()).map(|(a, b)| a - b).collect(), layout_back, again));
+                ctx.take_log();
+                Err(())
+            }
         });
     }
     if need.setup_dispose && all_ok(&o) {
@@ -322,6 +345,38 @@ pub fn layout_of(ops: &[Op], resmap: &[u8]) -> Result<Layout, String> {
         return Err(format!("identify: {}", e));
     }
     Ok(o.layout.unwrap())
+}
+
+/// Layout of `ops` when its builder is filled call by call in alternation with a second, independent builder
+/// (`other`), both alive at once; the other one is built first.  A builder's plan is a function of its own calls.
+pub fn layout_interleaved(ops: &[Op], other: &[Op], resmap: &[u8]) -> Result<Layout, String> {
+    let ctx1 = Ctx::new(PlanInfo::of(ops).n(), resmap.to_vec());
+    let ctx2 = Ctx::new(PlanInfo::of(other).n(), resmap.to_vec());
+    let (mut b1, mut b2) = (shred::DispatcherBuilder::new(), shred::DispatcherBuilder::new());
+    let (mut calls1, mut calls2) = (Vec::new(), Vec::new());
+    let (mut n1, mut n2, mut path) = (0usize, 0usize, Vec::new());
+    for i in 0..ops.len().max(other.len()) {
+        if let Some(op) = other.get(i) {
+            path.push(i);
+            register_ops_step(&mut b2, std::slice::from_ref(op), &mut n2, &mut path, &ctx2, &mut calls2);
+            path.pop();
+        }
+        if let Some(op) = ops.get(i) {
+            path.push(i);
+            register_ops_step(&mut b1, std::slice::from_ref(op), &mut n1, &mut path, &ctx1, &mut calls1);
+            path.pop();
+        }
+    }
+    if let Some(c) = calls1.iter().find(|c| c.panic.is_some()) {
+        return Err(format!("call {:?} panicked: {}", c.path, c.panic.clone().unwrap()));
+    }
+    // the second builder's dispatcher stays alive while the first one is built and identified
+    let d2 = if calls2.iter().all(|c| c.panic.is_none()) { build(b2).ok() } else { None };
+    let mut d1 = build(b1).map_err(|e| format!("build panicked: {}", e))?;
+    let world = if resmap.iter().any(|c| *c as usize >= NCONCRETE) { new_world_wide() } else { new_world() };
+    let l = identify(&mut d1, &ctx1, &world).map_err(|e| format!("identify: {}", e));
+    drop(d2);
+    l
 }
 
 #[allow(dead_code)]
